@@ -183,6 +183,34 @@ NOT_APPLICABLE = {
 PENDING = "designed (DESIGN.md section 4); checker not built yet in this tree"
 
 
+# additions made after the seeded rounds (appended to the technique text)
+EXTRA = {
+    "C01": "; control-dependence signature of every structure check against an applicability table, and the set of state keys/calls each check's own condition reads against a reviewed table; bug-pattern rules",
+    "C02": "; set-valued interprocedural provenance analysis of every table/enum lookup key (locals, parameters, map(), state keys by store-pairing, exception attributes through direct and dynamic raises) against the data tables' key sets; freshness of per-picture allocators",
+    "C03": "; scratch State(...) key/source agreement; bug-pattern rules (swapped same-named arguments, stale lower-bound guard, presence by truthiness)",
+    "C04": "; C11 re-evaluated; ceil-division bound of the lossless slice-size scaler against the length field width; row-distinct copy handed to the in-place encoder; bug-pattern rules",
+    "C05": "; bug-pattern rules over the generators' slice-level arithmetic",
+    "C06": "; hidden-state analysis and bug-pattern rules over the description program, serdes framework and bit I/O",
+    "C07": "; per-sequence definite assignment of every local rebound in the loop over sequences; hidden-state and bug-pattern rules",
+    "C08": "; hidden-state analysis and bug-pattern rules",
+    "C09": "; dyadic-pyramid shape of the unpinned subband_width/height formulas as linear forms of the shift exponents; exact-integer-arithmetic scan of the decoder's reach",
+    "C10": "; who-may-ask-the-stream-position rule; aliasing (FRESH facts) of per-sequence state; bug-pattern rules",
+    "C11": "; unconditional padding; helper-inlined filter index comparison; hidden-state and bug-pattern rules",
+    "C15": "; per-candidate level filtering (shared with C16.c); bug-pattern rules",
+    "C16": "; hidden-state analysis of the encoder's level decisions; bug-pattern rules",
+    "C17": "; freshness of the union result; bug-pattern rules",
+    "C18": "; ownership of Matcher state and freshness of query results; unconditional symbol and wildcard steps; (thorough) exhaustive comparison of the composed gadgets with the reference on all 45 000 pattern trees up to 8 nodes",
+    "C19": "; closed list of pruning conditions; fresh matcher per pattern in the root node; hidden-state and bug-pattern rules",
+    "C20": "; ownership of the file and position fields by the bit-level primitives; bug-pattern rules",
+    "C21": "; used-mark precedes the fallible lookup; bug-pattern rules",
+    "C24": "; parameter-mutation analysis of every generator through all callees",
+    "C25": "; hidden-state analysis of picture output",
+    "C26": "; totality of every container access in the monitor's closure; bug-pattern rules",
+    "C27": "; validate-before-mutate for mutators of existing objects; bug-pattern rules",
+    "C28": "; grow-before-index rule of the table reader; bug-pattern rules",
+}
+
+
 def main():
     props = [json.loads(l) for l in open(os.path.join(HERE, "properties.jsonl"))]
     checks = []
@@ -202,7 +230,7 @@ def main():
                     engine="vcheck",
                     level_claimed=dict(category="other", text=c["text"], design_ref=c["ref"]),
                     level_note=c["note"],
-                    technique=c["technique"],
+                    technique=c["technique"] + EXTRA.get(pid, ""),
                 )
             )
         else:
@@ -226,7 +254,7 @@ def main():
             )
         ],
         checks=checks,
-        notes="All checks are static: they parse /repo's working tree on every run and never import or execute it. Exit 0 pass / 1 VIOLATION / 2 ANALYSIS-ERROR. Known findings: known_findings.json. thorough = quick rules + seeded-variant self-test of the checker.",
+        notes="All checks are static: they parse /repo's working tree on every run and never import or execute it. Before analysis the loader drops effect-free statements and alpha-renames locals that differ from the reviewed tree back to their reference names (vcheck/reference_locals.json), so that behaviour-preserving renames do not fire rules. Exit 0 pass / 1 VIOLATION / 2 ANALYSIS-ERROR. Known findings: known_findings.json. thorough = quick rules + seeded-variant self-test of the checker (+ exhaustive gadget composition for C18).",
         not_applicable=na,
     )
     with open(os.path.join(HERE, "MANIFEST.json"), "w") as f:
